@@ -286,6 +286,8 @@ impl<T> Handle<T> {
         // Release the lock before rebuilding the interest cache, as that
         // function will lock the new subscriber.
         drop(lock);
+        #[cfg(tokio_rs_tracing_verif)]
+        callsite::__verif::yield_point("modify:unlocked");
 
         callsite::rebuild_interest_cache();
 
